@@ -1,4 +1,5 @@
 import Rustic.Model.Codec
+import Rustic.Model.WriteSites
 import Driver.Util
 /- Driver channel `c04` — see harness/src/c04.rs for the op-line grammar and the observation formats. -/
 namespace Driver.C04
@@ -153,6 +154,7 @@ def handle : List String → String
     | none => "bad-op"
   | ["keys", script] => keysObs script
   | ["scan", seed] => if seed.toNat?.isSome then "ok" else "bad-op"
+  | ["sites"] => "ok " ++ Rustic.WriteSites.render
   | ["hist", seed] => if seed.toNat?.isSome then "ok" else "bad-op"
   | ["tamper", seed] => if seed.toNat?.isSome then "ok" else "bad-op"
   | ["swap", "snapshot", seed] => if seed.toNat?.isSome then "undetected" else "bad-op"
